@@ -265,6 +265,22 @@ def regress_cases(prop):
 
 
 def run_check(prop: str, tier: str, seed: int, replay_file: str | None = None, jobs: int | None = None) -> int:
+    # halmos creates one temporary directory per test function for its solver queries; killed or
+    # crashed workers would leave them behind: keep them under .work and remove them at the end
+    import shutil
+    import tempfile
+
+    tmp = os.path.join(os.environ.get("VERIF_HOME", "/verif"), ".work", "tmp", f"{prop}-{os.getpid()}")
+    os.makedirs(tmp, exist_ok=True)
+    os.environ["TMPDIR"] = tmp
+    tempfile.tempdir = tmp
+    try:
+        return _run_check(prop, tier, seed, replay_file, jobs)
+    finally:
+        shutil.rmtree(tmp, ignore_errors=True)
+
+
+def _run_check(prop: str, tier: str, seed: int, replay_file: str | None = None, jobs: int | None = None) -> int:
     t0 = time.time()
     modname = MODULES[prop]
     mod = importlib.import_module(modname)
